@@ -99,8 +99,18 @@ impl<'i, R: RuleType> FlatPairs<'i, R> {
 
 impl<R: RuleType> ExactSizeIterator for FlatPairs<'_, R> {
     fn len(&self) -> usize {
-        // Tokens len is exactly twice as flatten pairs len
-        (self.end - self.start) >> 1
+        // One pair is left for every `Start` token in the window. `next_back` lowers `end`
+        // to the `Start` token of the pair it returned, which lies inside the enclosing pairs
+        // that are still to come, so the window is not always a whole number of pairs.
+        let mut len = 0;
+        let mut index = self.start;
+        while index < self.end {
+            if self.is_start(index) {
+                len += 1;
+            }
+            index += 1;
+        }
+        len
     }
 }
 
